@@ -1846,7 +1846,42 @@ impl ElementMut for XmlElement {
     }
 
     fn normalize(&self) {
-        todo!()
+        // the items themselves, whether or not the view merges adjacent text
+        let children = self
+            .element
+            .borrow()
+            .children()
+            .iter()
+            .map(XmlNode::from)
+            .collect::<Vec<XmlNode>>();
+
+        let mut previous: Option<XmlText> = None;
+        for child in children {
+            match child {
+                XmlNode::Text(text) => {
+                    let data = text.data().unwrap_or_default();
+                    if data.is_empty() {
+                        self.element.borrow().delete(text.as_node().id());
+                        continue;
+                    }
+
+                    // two pieces that must not be joined ("]]" before ">") stay apart
+                    if let Some(prev) = previous.as_ref() {
+                        if prev.append_data(data.as_str()).is_ok() {
+                            self.element.borrow().delete(text.as_node().id());
+                            continue;
+                        }
+                    }
+
+                    previous = Some(text);
+                }
+                XmlNode::Element(element) => {
+                    element.normalize();
+                    previous = None;
+                }
+                _ => previous = None,
+            }
+        }
     }
 }
 
